@@ -91,7 +91,8 @@ contract("SurrogateModel.evaluate", abstract=True, params=["self", "individual"]
                "these clauses; for predicting surrogates only freshness of the result is used")
 contract("Problem.evaluate_inequality_constraints", abstract=True, params=["self", "x"], props=["C05", "C06"],
          trusted="A2 user-supplied constraint function", types={"self": "Ref[Problem]", "x": "List[Real]", "result": "List[Real]"},
-         ensures=["fresh(result)", "self.ghost_last_g is result"], modifies=["self.ghost_last_g"],
+         ensures=["fresh(result)", "self.ghost_last_g is result", "self.ghost_last_g_vec is x"],
+         modifies=["self.ghost_last_g", "self.ghost_last_g_vec"],
          allocates=["$list.Real", "$len.Real"])
 contract("DataStore.sync_individual", abstract=True, params=["self", "individual"], props=["C05", "C06", "C09", "C10", "C11"],
          types={"self": "Ref[DataStore]", "individual": "Ref[Individual]"},
@@ -128,6 +129,8 @@ contract("artap.job:Job.evaluate", props=["C05", "C06", "C09", "C11", "C14"], op
              "implies(old(individual.state) != 2 and len(self.problem.ghost_last_g) > 0, "
              "(individual.costs_signed[len(individual.costs_signed) - 1] == 0) == "
              "forall(lambda i: self.problem.ghost_last_g[i] < 0, 0, len(self.problem.ghost_last_g)))",
+             # ... and those constraint values were computed for the vector the design finally carries
+             "implies(old(individual.state) != 2, self.problem.ghost_last_g_vec is individual.vector)",
              # C05/C06 accounting: f failed calls plus exactly one successful call, f <= 4
              "implies(old(individual.state) != 2, 0 <= n_failed(self) and n_failed(self) <= 4)",
              "implies(old(individual.state) != 2 and self.problem.surrogate.passthrough, "
@@ -177,7 +180,7 @@ contract("artap.job:Job.evaluate", props=["C05", "C06", "C09", "C11", "C14"], op
              "assert implies(self.problem.surrogate.passthrough, seq_eq(failed_individual.vector, self.problem.ghost_last_vec)) and failed_individual.state == 3"]},
          modifies=["individual.state", "individual.costs", "individual.costs_signed", "individual.vector", "individual.ghost_evals",
                    "individual.features.start_time", "individual.features.finish_time", "individual.features.feasible",
-                   "list(self.problem.failed)", "self.problem.ghost_last_g"] + ["self.problem.ghost_calls", "self.problem.ghost_last_arg",
+                   "list(self.problem.failed)", "self.problem.ghost_last_g", "self.problem.ghost_last_g_vec"] + ["self.problem.ghost_calls", "self.problem.ghost_last_arg",
                                                    "self.problem.ghost_last_vec", "self.problem.ghost_last_ret",
                                                    "self.problem.ghost_nontransient"] +
                   ["self.problem.surrogate." + f for f in ("eval_counter", "predict_counter", "trained", "ghost_trains", "regressor")] +
